@@ -540,7 +540,13 @@ public:
          }
          else
          {
-            J.attribute("v", "<wide>");
+            std::string v;
+            for (unsigned i = 0; i < E->getLength() && i < 400; i++)
+            {
+               uint32_t cu = E->getCodeUnit(i);
+               v.push_back(cu < 0x80 ? (char)cu : '?');
+            }
+            J.attribute("v", v);
             J.attribute("wide", 1);
          }
       }
